@@ -354,9 +354,17 @@ def run(ctx):
                 ctx.violation("C09/%s/duplicate-ids" % op, repr(after), wit)
                 return
             # hooked-state invariant, confirmed observably
-            ctx.feature("hooked-state-checked")
-            pool = set(sc._id_set)
-            leaked, lost = pool - set(allids), set(allids) - pool
+            if isinstance(getattr(sc, "_id_set", None), set):
+                ctx.feature("hooked-state-checked")
+                pool = set(sc._id_set)
+                leaked, lost = pool - set(allids), set(allids) - pool
+            else:
+                # registry not reachable under its usual name: decide purely observably, by probing every id of the
+                # universe (ids that no contained object has must be addable, ids in use must be rejected)
+                ctx.feature("hooked-state-checked")
+                ctx.counter("id-pool-decided-by-probing-only")
+                uni = {i for _, ids_, _ in U.spec.values() for i in ids_} | set(allids)
+                leaked, lost = uni - set(allids), set(allids)
             from commonroad.scenario.obstacle import EnvironmentObstacle, ObstacleType
             from commonroad.geometry.shape import Circle
             for i in sorted(leaked):
